@@ -59,8 +59,8 @@ PROPS = {
     'C05': dict(
         level='model_checking', verus_units=[],
         kani=True,
-        kani_select=dict(quick=r'^k_task_\w+_n3c1_m101|^k_task_flatmap_fil_(col|cnt|red|find)_n2c1|^k_api_par2_(map_fil_count|fil_for_each|map_fil_reduce|map_fil_find|fil_fil_find|map_fil_collect_vec)',
-                         thorough=r'^k_task_|^k_glue_|^k_api_par2_'),
+        kani_select=dict(quick=r'^k_task_\w+_n3c1_m101|^k_task_flatmap_fil_(col|cnt|red|find)_n2c1|^k_api_par2_(map_fil_count|fil_for_each|map_fil_reduce|map_fil_find|fil_fil_find|map_fil_collect_vec)|^k_api_seq_(flat_fil_fil|map_fil_fil|fmap_fil_fil|fil_fil|fil_map|map_fil_map)_count',
+                         thorough=r'^k_task_|^k_glue_|^k_api_par2_|^k_api_seq_\w+_count'),
         trusted_base=[T1, T5, RSCHED, STUBS, MODEL],
         assumptions=[TASK_BOUND, 'clause 2 of the property (a by-value iterator source is advanced by one thread at a time) is the CAS handle protocol inside orx-concurrent-iter ConIterOfIter: no contract on orx-parallel functions can express or decide it; it is assumed (T1), NOT claimed by this check'],
         explanation='Kani (bounded): call-log harnesses. Every user closure logs (stage, source position); for must-visit terminals the call multiset equals the std chain (each stage exactly once per element reaching it, nothing for elements delivered to other workers); short-circuit terminals call each closure at most once per element. Covers every kernel task and the closure compositions of src/par/*.rs. ' + MC_TEXT,
